@@ -1,6 +1,6 @@
 """C07: after any seek the reported position matches the audio delivered (explicit-state BFS)."""
 import sys, time, json
-import vlib, zoo, seekgraph
+import vlib, zoo, seekgraph, c07_hist
 from seekgraph import Explorer
 
 PID = 'C07'
@@ -103,6 +103,8 @@ def run(tier):
     files.update(zoo.mux_files())            # multiplexed links with packets split over two pages
     exe, listfile, models = seekgraph.load_models(files)
     t_end = time.time() + (240 if tier == 'quick' else 1500)
+    # family HIST (pylib/c07_hist.py): plain seek judged after histories of lapped seeks / crosslap / halfrate / reads / refused seeks; fixed enumeration, no deadline, before the BFS
+    c07_hist.run_family(chk, tier, files)
     tot_states = tot_trans = 0
     per_file = {}
     stats = {'undefined_pos': 0, 'judged': 0, 'cross_fwd': 0, 'cross_back': 0, 'seeks': 0, 'sigs': set()}
@@ -155,6 +157,8 @@ def run(tier):
 def replay(path):
     r = json.load(open(path))
     vlib.build('plain')
+    if r['replay'].get('family') == 'hist':
+        return c07_hist.replay(r)
     files = zoo.standard_files()
     files.update(zoo.large_files())
     files.update(zoo.mux_files())
